@@ -198,6 +198,65 @@ pub fn check(q: &Q, conts: &[Vec<u8>]) -> Option<String> {
     None
 }
 
+/// Queries at every call boundary of a history (also right after Malformed / OutputFull returns,
+/// where the decoder may owe deferred output: gb18030 pending ASCII, a withheld BB, a pending
+/// UTF-16 unit, ...).  The query buffer is a prefix of the real unconsumed input.  The twin is
+/// rebuilt by replaying the same calls.
+pub fn check_mid_history(h: &crate::drive_dec::DecHistory, drv: &mut crate::drive_dec::DecDriver, st: &mut Stats) -> Option<(usize, String)> {
+    drv.stop_after_calls = None;
+    let full = drv.run(h);
+    if !full.completed {
+        return None;
+    }
+    let ncalls = full.calls.len();
+    for k in 1..ncalls {
+        // state after k calls; skip if the stream already ended
+        let consumed: usize = full.calls[..k].iter().map(|c| c.read).sum();
+        let rest = &h.stream[consumed..];
+        let buf = &rest[..rest.len().min(12)];
+        let mut d = h.mode.new_decoder(h.enc);
+        drv.stop_after_calls = Some(k);
+        let _ = drv.run_with(h, &mut d, &mut |_d, _c| {});
+        let r = match fw::catch(|| d.latin1_byte_compatible_up_to(buf)) {
+            Ok(r) => r,
+            Err(p) => {
+                drv.stop_after_calls = None;
+                return Some((k, format!("latin1_byte_compatible_up_to panicked: {}", p)));
+            }
+        };
+        st.class("mid-history-query");
+        if matches!(full.calls[k - 1].res, crate::drive_dec::Res::Malformed(..) | crate::drive_dec::Res::OutputFull) {
+            st.class("mid-history-query-right-after-Malformed-or-OutputFull");
+        }
+        if let Some(n) = r {
+            let mut t = h.mode.new_decoder(h.enc);
+            drv.stop_after_calls = Some(k);
+            let _ = drv.run_with(h, &mut t, &mut |_d, _c| {});
+            drv.stop_after_calls = None;
+            if n > buf.len() {
+                return Some((k, format!("returned Some({}) for a {}-byte buffer", n, buf.len())));
+            }
+            // the decoder has seen every byte offered to it so far, not only the consumed ones
+            let offered = full.calls[..k].iter().map(|c| c.src_off + c.src_len).max().unwrap_or(0);
+            let end_signalled = full.calls[..k].iter().any(|c| c.last);
+            if !end_signalled && bom_pending(h.enc, h.mode, &h.stream[..offered]) {
+                return Some((k, format!("after {} call(s) ({} bytes consumed) returned Some({}) although the BOM decision is still pending / withheld BOM bytes have not been delivered", k, consumed, n)));
+            }
+            match feed(&mut t, &buf[..n], false) {
+                None => return Some((k, "twin failed while decoding the compatible prefix".into())),
+                Some((out, errs)) => {
+                    let want: Vec<u32> = buf[..n].iter().map(|b| *b as u32).collect();
+                    if errs != 0 || out != want {
+                        return Some((k, format!("after {} call(s) returned Some({}) for upcoming input {} but decoding those {} bytes next yields [{}] ({} error(s)), not the byte values", k, n, fw::hex(buf), n, fw::hex32(&out), errs)));
+                    }
+                }
+            }
+        }
+    }
+    drv.stop_after_calls = None;
+    None
+}
+
 fn viol(q: &Q, m: String) -> Violation {
     Violation { msg: format!("{} ({}) after prefix {} query buffer {}: {}", q.enc.name(), q.mode.name(), fw::hex(&q.prefix), fw::hex(&q.buf), m), sig: "C19:query".into(), case: q.to_json() }
 }
@@ -326,6 +385,67 @@ pub fn run(ctx: &Ctx) -> i32 {
     });
     st.exhaustive.push("per encoding x BOM mode: every atom / atom-pair / BOM look-alike prefix x query buffers of every length 0..=40 (thorough 100) with each special byte at every position (dense for the first prefixes and short buffers, thinned otherwise)".into());
     if !fw::should_stop() {
+        // mid-history queries: core streams (+ BOM look-alike prefixes) x cut sets x small capacities, raw and with replacement
+        let mut encs2 = encs::multibyte();
+        encs2.extend(encs::single_byte_sample());
+        let r = par_run(ctx, encs2.len() * 4, |part, st| {
+            let enc = encs2[part / 4];
+            let lane = part % 4;
+            let algo = algo_for(enc);
+            let mut streams = hist::core_streams(algo, if thorough { 7 } else { 5 }, false);
+            for b in hist::bom_atoms() {
+                for a in hist::core_streams(algo, 3, false) {
+                    let mut v = b.clone();
+                    v.extend_from_slice(&a);
+                    v.extend_from_slice(b"abc");
+                    streams.push(v);
+                }
+            }
+            for s0 in hist::core_streams(algo, 4, false) {
+                let mut v = s0.clone();
+                v.extend_from_slice(b"xyz");
+                streams.push(v);
+            }
+            streams.sort();
+            streams.dedup();
+            let mut drv = crate::drive_dec::DecDriver::new();
+            for (si, stream) in streams.iter().enumerate() {
+                if si % 4 != lane {
+                    continue;
+                }
+                if fw::should_stop() {
+                    return;
+                }
+                let cut_sets = hist::cut_sets(stream.len().min(6));
+                for mode in BomMode::ALL {
+                    for sink in [crate::drive_dec::Sink::Utf8, crate::drive_dec::Sink::Utf16] {
+                        for repl in [false, true] {
+                            for cuts in &cut_sets {
+                                if cuts.len() > 2 {
+                                    continue;
+                                }
+                                for caps in [vec![sink.min_cap()], vec![sink.min_cap() + 1], vec![]] {
+                                    let h = crate::drive_dec::DecHistory { enc, mode, sink, repl, stream: stream.clone(), cuts: cuts.clone(), last_on_empty: true, caps, fill: 0xA5, align: 0 };
+                                    st.evals += 1;
+                                    st.nontrivial_distinct();
+                                    if let Some((k, m)) = check_mid_history(&h, &mut drv, st) {
+                                        let mut case = h.to_json();
+                                        case["kind"] = json!("c19_mid_history");
+                                        case["query_after_calls"] = json!(k);
+                                        st.violations.push(Violation { msg: format!("{} ({} {} repl={}) stream {} cuts {:?} caps {:?}: {}", enc.name(), mode.name(), sink.name(), repl, fw::hex(stream), cuts, h.caps, m), sig: "C19:mid-history".into(), case });
+                                        return;
+                                    }
+                                }
+                            }
+                        }
+                    }
+                }
+            }
+        });
+        st.merge(r);
+        st.exhaustive.push("mid-history queries: at every call boundary (also right after Malformed / OutputFull) of core histories (atoms, BOM look-alike prefixes, ASCII tails) x cut sets of size <= 2 x {min, min+1, ample} capacities x 3 BOM modes x UTF-8/UTF-16 x raw/replacement".into());
+    }
+    if !fw::should_stop() {
         use proptest::prelude::*;
         let r = par_run(ctx, all.len(), |part, st| {
             let enc = all[part];
@@ -381,6 +501,16 @@ pub fn run(ctx: &Ctx) -> i32 {
 }
 
 pub fn replay(case: &Value) -> Option<Vec<Violation>> {
+    if case.get("kind").and_then(|k| k.as_str()) == Some("c19_mid_history") {
+        let mut c2 = case.clone();
+        c2["kind"] = json!("dec_history");
+        let h = crate::drive_dec::DecHistory::from_json(&c2)?;
+        let mut st = Stats::new();
+        return Some(match check_mid_history(&h, &mut crate::drive_dec::DecDriver::new(), &mut st) {
+            None => vec![],
+            Some((_, m)) => vec![Violation { msg: m, sig: "C19:mid-history".into(), case: case.clone() }],
+        });
+    }
     let q = Q::from_json(case)?;
     Some(match check(&q, &continuations()) {
         None => vec![],
